@@ -45,6 +45,15 @@ FIRST_MISS = {
  "C18-r4m1": "ratio-1 transparency of integer formats at depths >= 36",
  "C18-r4m2": "superposition over inputs with runs of exact zeros (depth <= run < 2*depth) at fractional positions",
  "C11-r4m1": "(covered before intake by the clone actions added for C19-r4m2) clone of Rms / of the rms adaptor continued independently",
+ "C06-r5m1": "release build profile executed too (debug_assert-only checks)",
+ "C06-r5m3": "index_mut driven as one IndexMut call (the harness read through Index first, which hid it)",
+ "C09-r5m2": "process{abort: k}: the k-th node panics, the caller catches it and reuses the processor (Trace_Graph TAbort / PrefixOK)",
+ "C12-r5m2": "resplit {to: clone}: Fork::clone of a used fork",
+ "C12-r5m3": "release build profile executed too",
+ "C13-r5m2": "release build profile executed too",
+ "C13-r5m3": "an output more than 4096 frames behind the leader",
+ "C14-r5m3": "batches consumed by internal iteration (fold / for_each / count / last)",
+ "C07-r5m2": "Debug formatting into a non-allocating sink as an operation (`fmt` events)",
  "C09-r3m1": "nodes without buffers anywhere in random graphs (counted per incoming edge when they are inputs)",
 }
 rows = []
